@@ -33,6 +33,7 @@ void simk_route(const char *ip, uint16_t port, SimkRoute r); // default for unkn
 void simk_connect_script(uint16_t port, const int *outcomes, int n);
 void simk_set_rcvbuf(int fd, int bytes);
 std::string simk_txlog(int fd);      // bytes sent so far through this stream endpoint (tap)
+std::string simk_peer_txlog(int fd); // bytes the OTHER endpoint of fd's connection has sent (wire tap of the peer)
 uint64_t simk_conn_id(int fd);       // stable id of the connection an fd belongs to (0 if none)
 int simk_open_fds();                 // number of simulated descriptors currently open
 int simk_open_sockets();             // number of simulated TCP/UDP sockets currently open
